@@ -19,7 +19,7 @@ from .common import cfg_consts
 
 
 def record(ctx, timeout=200):
-    src = os.path.join(common.BUILD, "src")
+    src = common.SRC
     if not os.path.isdir(src):
         raise common.Infra("harness source copy missing (build_harness not run)")
     pkg = os.path.join(src, "zz_reposuite", "tests")
